@@ -506,6 +506,16 @@ def joint_vec(n):
     return fvec(n, JOINT)
 
 
+# Integrated trajectories: a joint coordinate is a real number, not an angle in a principal range -- a spinning axis
+# or a prismatic joint passes +-2*pi during a run, so starts next to (and beyond) one revolution are ordinary inputs
+_JOINT_WIDE = st.one_of(JOINT, JOINT, G.floats(-10.0, 10.0),
+                        st.sampled_from([6.2, 6.28, 6.3, -6.2, -6.28, -6.3, 7.0, -7.0, 2 * PI, -2 * PI]))
+
+
+def joint_vec_wide(n):
+    return fvec(n, _JOINT_WIDE)
+
+
 _F10 = G.floats(-10.0, 10.0)
 _F20 = G.floats(-20.0, 20.0)
 _F3 = G.floats(-3.0, 3.0)
@@ -1187,7 +1197,7 @@ def s_fdtraj(cap=160):
         def sized(Nr):
             N, intRes = Nr
             return st.fixed_dictionaries({
-                "model": model_strategy(n), "q": joint_vec(n), "dq": fvec(n, _F3), "g": GRAVITY,
+                "model": model_strategy(n), "q": joint_vec_wide(n), "dq": fvec(n, _F3), "g": GRAVITY,
                 "taumat": fmat(N, n, _F10), "Ftipmat": fmat(N, 6, _F10), "dt": DT, "intRes": st.just(intRes)})
         table = {Nr: sized(Nr) for Nr in _sim_sizes(n, cap)}
         return st.sampled_from(sorted(table)).flatmap(table.__getitem__)
@@ -1200,7 +1210,7 @@ def s_simctl(cap=120):
             N, intRes = Nr
             return st.fixed_dictionaries({
                 "model": model_strategy(n), "tilde": st.one_of(st.none(), model_strategy(n)),
-                "q": joint_vec(n), "dq": fvec(n, _F3), "g": GRAVITY, "gtilde": GRAVITY,
+                "q": joint_vec_wide(n), "dq": fvec(n, _F3), "g": GRAVITY, "gtilde": GRAVITY,
                 "Ftipmat": fmat(N, 6, _F10), "thetamatd": fmat(N, n, JOINT), "dthetamatd": fmat(N, n, _F3),
                 "ddthetamatd": fmat(N, n, _F3), "Kp": GAIN, "Ki": GAIN, "Kd": GAIN, "dt": DT,
                 "intRes": st.just(intRes)})
